@@ -395,17 +395,10 @@ impl Debugee {
         let threads = self.tracee_ctl().snapshot();
         Ok(threads
             .into_iter()
-            .filter_map(|tracee| {
-                let _tracee_ecx;
-                let tracee_ecx = if tracee.pid == ecx.pid_on_focus() {
-                    ecx
-                } else {
-                    let location = weak_error!(tracee.location(self))?;
-                    _tracee_ecx = ExplorationContext::new(location, 0);
-                    &_tracee_ecx
-                };
-
-                let mb_bt = weak_error!(self.unwind(tracee_ecx.pid_on_focus()));
+            .map(|tracee| {
+                // a thread is listed even if nothing is known about the code it executes
+                // (vdso, JIT-compiled code), it just has no backtrace then
+                let mb_bt = weak_error!(self.unwind(tracee.pid));
                 let frame_num = mb_bt.as_ref().and_then(|bt| {
                     bt.iter()
                         .enumerate()
@@ -421,13 +414,13 @@ impl Debugee {
                     })
                 });
 
-                Some(ThreadSnapshot {
+                ThreadSnapshot {
                     in_focus: tracee.pid == ecx.pid_on_focus(),
                     thread: tracee,
                     bt: mb_bt,
                     place: place.map(|p| p.to_owned()),
                     focus_frame: frame_num,
-                })
+                }
             })
             .collect())
     }
